@@ -21,9 +21,11 @@ type Val struct {
 	A []Val  `json:"a,omitempty"`
 }
 
-func VInt(i int) Val        { return Val{T: "Integer", I: int64(i)} }
-func VLong(i int64) Val     { return Val{T: "Long", I: i} }
-func VFloat(f float32) Val  { return Val{T: "Float", F: strconv.FormatUint(uint64(math.Float32bits(f)), 16)} }
+func VInt(i int) Val    { return Val{T: "Integer", I: int64(i)} }
+func VLong(i int64) Val { return Val{T: "Long", I: i} }
+func VFloat(f float32) Val {
+	return Val{T: "Float", F: strconv.FormatUint(uint64(math.Float32bits(f)), 16)}
+}
 func VDouble(f float64) Val { return Val{T: "Double", F: strconv.FormatUint(math.Float64bits(f), 16)} }
 func VStr(s string) Val     { return Val{T: "String", S: s} }
 func VBool(b bool) Val      { return Val{T: "Boolean", B: b} }
